@@ -255,3 +255,44 @@ for _ft in ("T", "C"):
                  f"result is None or spec.pccc.normalize(result) == {{'file_type': {_ft!r}, 'file_number': int(fnum), 'element': int(elem), "
                  "'sub_element': spec.pccc.CT_SUB[sub], 'bit_address': True, 'count': 1, 'word': 0}"],
         props=["C18"], max_paths=40000)
+
+# ---- the public entry points: one Tag for one address, a list in request order for several; real parse_tag, real addresses
+SLD2 = ["d = pycomm3.slc_driver.SLCDriver('10.0.0.1')", "d._session = session", "d._target_cid = cid", "d._target_is_connected = True",
+        "d._connection_opened = True"]
+contract(
+    id="slc.read.list", func="pycomm3.slc_driver.SLCDriver.read", call="d.read('N7:3', 'b3/17', 'L9:2', 'N7:3{2}')",
+    params=dict(SC, head=P.bytes(len=46), d0=P.bytes(len=2), d1=P.bytes(len=2), d2=P.bytes(len=4), d3=P.bytes(len=4)),
+    requires=["spec.encap.le(head, 8, 4) == 0"],
+    setup=SLD2 + ["t = spec.env.Transport([spec.pccc.pccc_reply(head, 0, x) for x in (d0, d1, d2, d3)])", "d._sock = t",
+                  "sent = lambda k: spec.encap.try_parse_frame(t.sent[k])[3][3]"],
+    ensures=["isinstance(result, list) and len(result) == 4", "len(t.sent) == 4",
+             "result[0].value == spec.cip_codec.decode_int('INT', d0) and result[0].tag == 'N7:3'",
+             "result[1].value == spec.logix.bit_of(spec.cip_codec.decode_int('INT', d1), 1) and result[1].tag == 'b3/17'",
+             "result[2].value == spec.cip_codec.decode_int('DINT', d2)",
+             "result[3].value == [spec.cip_codec.decode_int('INT', d3[:2]), spec.cip_codec.decode_int('INT', d3[2:])] and result[3].tag == 'N7:3'",
+             "all(r.error is None for r in result)",
+             "sent(0)[18:] == spec.pccc.read_fields('N', 7, 3, 0, 1) and sent(1)[18:] == spec.pccc.read_fields('B', 3, 1, 0, 1)",
+             "sent(2)[18:] == spec.pccc.read_fields('L', 9, 2, 0, 1) and sent(3)[18:] == spec.pccc.read_fields('N', 7, 3, 0, 2)"],
+    props=["C18"], max_paths=20000)
+contract(
+    id="slc.read.one", func="pycomm3.slc_driver.SLCDriver.read", call="d.read('N7:3')",
+    params=dict(SC, head=P.bytes(len=46), d0=P.bytes(len=2)), requires=["spec.encap.le(head, 8, 4) == 0"],
+    setup=SLD2 + ["t = spec.env.Transport([spec.pccc.pccc_reply(head, 0, d0)])", "d._sock = t"],
+    ensures=["not isinstance(result, list)", "result.value == spec.cip_codec.decode_int('INT', d0)", "result.tag == 'N7:3'"], props=["C18"])
+contract(
+    id="slc.read.unsupported", func="pycomm3.slc_driver.SLCDriver.read", call="d.read(addr)",
+    bind={"addr": ["'X7:3'", "'N0:3'", "'N7:256'", "'N7:3/16'", "'B3/4096'", "'N7'", "''"]}, params=dict(SC),
+    setup=SLD2 + ["t = spec.env.Transport([])", "d._sock = t"],
+    ensures=["False"], raises_only=["pycomm3.exceptions.RequestError"], ensures_exc=["len(t.sent) == 0"], props=["C18"])
+contract(
+    id="slc.write.list", func="pycomm3.slc_driver.SLCDriver.write", call="d.write(('N7:3', v), ('b3/17', b), ('L9:2', w))",
+    params=dict(SC, head=P.bytes(len=46), v=P.int(-32768, 32767), b=P.bool(), w=P.int(-2**31, 2**31 - 1)),
+    requires=["spec.encap.le(head, 8, 4) == 0"],
+    setup=SLD2 + ["t = spec.env.Transport([spec.pccc.pccc_reply(head, 0, b'')] * 3)", "d._sock = t",
+                  "sent = lambda k: spec.encap.try_parse_frame(t.sent[k])[3][3]"],
+    ensures=["isinstance(result, list) and len(result) == 3", "len(t.sent) == 3", "all(r.error is None for r in result)",
+             "[r.value for r in result] == [v, b, w]",
+             "sent(0)[17:] == b'\\xab' + spec.pccc.read_fields('N', 7, 3, 0, 1) + b'\\xff\\xff' + spec.cip_codec.encode_int('INT', v)",
+             "sent(1)[17:] == b'\\xab' + spec.pccc.read_fields('B', 3, 1, 0, 1) + spec.pccc.bit_mask(1) + (spec.pccc.bit_mask(1) if b else b'\\x00\\x00')",
+             "sent(2)[17:] == b'\\xab' + spec.pccc.read_fields('L', 9, 2, 0, 1) + b'\\xff\\xff' + spec.cip_codec.encode_int('DINT', w)"],
+    props=["C18"], max_paths=20000)
